@@ -27,7 +27,7 @@ def I(n):
 
 
 class Gen:
-    def __init__(self, seed, features=None, knots=3, size=1.0):
+    def __init__(self, seed, features=None, knots=3, size=1.0, focus=None):
         self.r = random.Random(seed)
         self.f = set(features if features is not None else ALL_FEATURES)
         self.bodies = []          # list of statement lists (index + 1 = body number)
@@ -43,8 +43,10 @@ class Gen:
         self.temps = []
         self.depth = 0
         self.after_choice = False
+        self.focus = focus        # "bursts" | "nested" | None: raises the odds of one sensitive pattern
         self.funcs = []           # functions that may be called from the code being generated: dict(name, params)
         self.in_choice_text = False
+        self.quiet = set()        # tunnels that print nothing
 
     # ------------------------------------------------------------------ helpers
     def has(self, f):
@@ -322,11 +324,12 @@ class Gen:
                 s, l = self.block_if(ind)
             elif k < 0.86 and self.has("block_seq"):
                 s, l = self.block_seq(ind)
-            elif k < 0.92 and self.has("tunnels") and self.tunnel_names():
+            elif (k < 0.92 or self.focus == "bursts" and k < 0.97) and k >= (0.6 if self.focus == "bursts" else 0.86) \
+                    and self.has("tunnels") and self.tunnel_names():
                 t = self.r.choice(self.tunnel_names())
                 # now and then the same tunnel several times in a row: with a tunnel that prints nothing, several visits
                 # of one container fall into a single look-ahead of the engine
-                reps = self.r.randint(2, 3) if self.p(0.35) else 1
+                reps = self.r.randint(2, 3) if self.p(0.9 if self.focus == "bursts" else 0.35) else 1
                 s, l = [{"k": "tun", "t": t}] * reps, ["%s-> %s ->" % (ind, t)] * reps
             elif k < 0.97 and self.has("threads") and self.thread_names() and level == 1:
                 t = self.r.choice(self.thread_names())
@@ -446,15 +449,24 @@ class Gen:
     def knot_body(self, kind):
         r = self.r
         n = max(1, int(r.randint(1, 4) * self.size))
-        if kind == "tunnel" and self.p(0.5):
+        if kind == "tunnel" and self.p(0.9 if self.focus == "bursts" else 0.5):
             # a quiet tunnel: logic only
             stmts, lines = [], []
             for _ in range(r.randint(1, 2)):
                 s_, l_ = self.logic("")
                 stmts += s_
                 lines += l_
+            self.quiet.add(self.cur)
             return stmts + [{"k": "tret"}], lines + ["->->"]
         stmts, lines = self.flow_items("", n, 1)
+        quiet = [t for t in self.tunnel_names() if t in self.quiet or self.kinds.get(t) == "tunnel" and t not in self.knots]
+        if self.focus == "bursts" and kind == "knot" and quiet and self.p(0.8):
+            # the look-ahead past the last line runs through the same silent tunnel several times and is then KEPT
+            # (choices or the end follow, no text): every visit has to be counted
+            t = self.r.choice(quiet)
+            reps = self.r.randint(2, 3)
+            stmts += [{"k": "tun", "t": t}] * reps
+            lines += ["-> %s ->" % t] * reps
 
         def ending(ind):
             if kind == "tunnel":
@@ -490,6 +502,19 @@ class Gen:
         """lines, logic, conditionals with early returns; ends with a return of a value"""
         r = self.r
         stmts, lines = [], []
+        if self.funcs and self.p(0.95 if self.focus == "nested" else 0.6):
+            # the function calls another one before it has printed anything itself, then goes on with lines of its own
+            if self.p(0.5):
+                st, t = self.call_stmt("print")
+                stmts += [st, {"k": "nl"}]
+                lines.append("{%s}" % t)
+            else:
+                st, t = self.call_stmt("drop")
+                stmts += [st, NL]
+                lines.append("~ %s" % t)
+            s, l = self.line("")
+            stmts += s
+            lines += l
         for _ in range(r.randint(0, 3)):
             k = r.random()
             if k < 0.45:
@@ -525,7 +550,7 @@ class Gen:
             self.kinds[n] = "knot"
         extra = []
         if self.has("tunnels"):
-            for i in range(r.randint(0, 2)):
+            for i in range(r.randint(1, 2) if self.focus == "bursts" else r.randint(0, 2)):
                 extra.append(("u%d" % i, "tunnel"))
         if self.has("threads"):
             for i in range(r.randint(0, 2)):
@@ -538,7 +563,7 @@ class Gen:
         src.append("-> k0")
         fsrc = []
         if self.has("functions"):
-            for i in range(r.randint(1, 3)):
+            for i in range(r.randint(2, 3)):
                 name = "f%d" % i
                 params = ["a%d_%d" % (i, j) for j in range(r.randint(0, 2))]
                 self.cur = name
@@ -571,8 +596,8 @@ def clone(stmts):
     return copy.deepcopy(stmts)
 
 
-def generate(seed, features=None, knots=3, size=1.0):
-    g = Gen(seed, features, knots, size)
+def generate(seed, features=None, knots=3, size=1.0, focus=None):
+    g = Gen(seed, features, knots, size, focus)
     prog, src = g.program()
     return {"prog": prog, "ink": src, "seed": seed, "knots": list(g.knots), "features": sorted(g.f)}
 
